@@ -410,9 +410,10 @@ pub fn run_ops(ctx: &Arc<Ctx>, ops: &[Node], thread: usize) {
                             let r = poll_once(fut.as_mut().unwrap());
                             match r {
                                 std::task::Poll::Ready(r) => {
+                                    // the completed future is dropped before the call is reported as returned (as block_on does)
+                                    fut = None;
                                     rt::emit(&format!("ret {} {}", next.id, if r.is_ok() { "ok" } else { "canceled" }));
                                     match r { Ok(v) => check_sync_result(ctx, node, v, "future_sync", "C08"), Err(_) => ctx.fail(&["C08"], format!("future_sync {} resolved to Canceled", node.id)) }
-                                    fut = None;
                                     // the matching await/dropf has nothing left to do
                                     while i < ops.len() { let stop = matches!(&ops[i].op, Op::Await(x) | Op::DropF(x) if x == f); i += 1; if stop { break; } }
                                 }
@@ -506,19 +507,27 @@ pub fn run_ops(ctx: &Arc<Ctx>, ops: &[Node], thread: usize) {
                 let of = match &fut { Fut::Sched(_, of) | Fut::Boxed(_, of) | Fut::Suspend(_, of) | Fut::Resumer(_, of) => *of };
                 if let Fut::Resumer(..) = &fut { ctx.futs.lock().unwrap().insert(*f, fut); continue }
                 rt::emit(&format!("inv {} pollonce {}", node.id, of));
-                let done = match &mut fut {
-                    Fut::Sched(fu, _) => match poll_once(fu) { std::task::Poll::Ready(r) => { rt::emit(&format!("ret {} {}", node.id, if r.is_ok() { "ok" } else { "canceled" })); check_future_result(ctx, of, r, "future_desync"); true } std::task::Poll::Pending => false },
-                    Fut::Boxed(fu, _) => match poll_once(fu) { std::task::Poll::Ready(r) => { rt::emit(&format!("ret {} {}", node.id, if r.is_ok() { "ok" } else { "canceled" })); check_future_result(ctx, of, r, "after"); true } std::task::Poll::Pending => false },
-                    Fut::Suspend(fu, _) => match poll_once(fu) {
-                        std::task::Poll::Ready(r) => {
-                            rt::emit(&format!("ret {} {}", node.id, if r.is_ok() { "ok" } else { "canceled" }));
-                            if let Ok(resumer) = r { ctx.calls[of].start.store(ctx.tick(), Ordering::SeqCst); ctx.futs.lock().unwrap().insert(*f, Fut::Resumer(resumer, of)); }
-                            continue
-                        }
-                        std::task::Poll::Pending => false },
-                    Fut::Resumer(..) => true,
+                // a completed future is dropped before the call is reported as returned (as block_on does)
+                enum Polled { Pending, Plain(Result<u64, oneshot::Canceled>, &'static str), Susp(Result<QueueResumer, oneshot::Canceled>) }
+                let polled = match &mut fut {
+                    Fut::Sched(fu, _) => match poll_once(fu) { std::task::Poll::Ready(r) => Polled::Plain(r, "future_desync"), std::task::Poll::Pending => Polled::Pending },
+                    Fut::Boxed(fu, _) => match poll_once(fu) { std::task::Poll::Ready(r) => Polled::Plain(r, "after"), std::task::Poll::Pending => Polled::Pending },
+                    Fut::Suspend(fu, _) => match poll_once(fu) { std::task::Poll::Ready(r) => Polled::Susp(r), std::task::Poll::Pending => Polled::Pending },
+                    Fut::Resumer(..) => Polled::Pending,
                 };
-                if !done { rt::emit(&format!("ret {} pending", node.id)); ctx.futs.lock().unwrap().insert(*f, fut); }
+                match polled {
+                    Polled::Pending => { rt::emit(&format!("ret {} pending", node.id)); ctx.futs.lock().unwrap().insert(*f, fut); }
+                    Polled::Plain(r, what) => {
+                        drop(fut);
+                        rt::emit(&format!("ret {} {}", node.id, if r.is_ok() { "ok" } else { "canceled" }));
+                        check_future_result(ctx, of, r, what);
+                    }
+                    Polled::Susp(r) => {
+                        drop(fut);
+                        rt::emit(&format!("ret {} {}", node.id, if r.is_ok() { "ok" } else { "canceled" }));
+                        if let Ok(resumer) = r { ctx.calls[of].start.store(ctx.tick(), Ordering::SeqCst); ctx.futs.lock().unwrap().insert(*f, Fut::Resumer(resumer, of)); }
+                    }
+                }
             }
             Op::SyncF(f) => {
                 let fut = ctx.futs.lock().unwrap().remove(f);
@@ -767,8 +776,23 @@ pub fn execute(ctx: &Arc<Ctx>) {
     for h in handles { h.join().ok(); }
     rt::emit("callers-done");
 
-    // every remaining kept future is dropped (its operation must still run: C07)
-    ctx.futs.lock().unwrap().clear();
+    // every remaining kept future is dropped (its operation must still run: C07); each drop is an event of its own, because
+    // dropping a future that a queue is waiting to be polled by hands that queue back
+    {
+        let mut keys: Vec<usize> = ctx.futs.lock().unwrap().keys().cloned().collect();
+        keys.sort();
+        for (n, k) in keys.into_iter().enumerate() {
+            let fut = ctx.futs.lock().unwrap().remove(&k);
+            if let Some(fut) = fut {
+                let of = match &fut { Fut::Sched(_, of) | Fut::Boxed(_, of) | Fut::Suspend(_, of) | Fut::Resumer(_, of) => *of };
+                let id = ctx.ncalls + 3_000_000 + n;
+                rt::emit(&format!("inv {} dropf {}", id, of));
+                if let Fut::Resumer(..) = &fut { ctx.calls[of].end.store(ctx.tick(), Ordering::SeqCst); rt::emit(&format!("rsend {}", of)); }
+                drop(fut);
+                rt::emit(&format!("ret {} ok", id));
+            }
+        }
+    }
 
     // With no pool thread, accepted asynchronous work only runs when a caller runs the queue:
     // flush with sync calls first (C04 makes those return).
@@ -817,6 +841,20 @@ pub fn execute(ctx: &Arc<Ctx>) {
     scheduler().despawn_threads_if_overloaded();
     rt::emit(&format!("ret {} ok", tid + 1));
     ctx.status.lock().unwrap().remove(&1000);
+    // A scheduling call that read the old maximum before it was lowered may still spawn one thread afterwards (the maximum is
+    // read in one critical section and used in the next): the property is about maxima changed between phases, so such
+    // stragglers are collected by despawning again; a thread that survives that is a violation.
+    let mut rounds = 0;
+    while vsched::thread::live_named() != 0 && rounds < 8 {
+        rounds += 1;
+        for _ in 0..50 { rt::yield_now(); }
+        let id = tid + 1 + rounds;
+        ctx.status.lock().unwrap().insert(1000, (usize::MAX, "despawn", usize::MAX));
+        rt::emit(&format!("inv {} despawn", id));
+        scheduler().despawn_threads_if_overloaded();
+        rt::emit(&format!("ret {} ok", id));
+        ctx.status.lock().unwrap().remove(&1000);
+    }
     if vsched::thread::live_named() != 0 { ctx.fail(&["C17"], format!("despawn_threads_if_overloaded returned with {} pool threads alive and a maximum of 0", vsched::thread::live_named())); }
     rt::emit("quiet");
 
@@ -935,7 +973,9 @@ fn check_pipes(ctx: &Arc<Ctx>) {
         let mut settled = true;
         for c in 0..prog.chans {
             let Some((_o, through, out)) = *ctx.pipe_of_chan[c].lock().unwrap() else { continue };
-            let must_be_shut = ctx.chan_closed[c].load(Ordering::SeqCst) || (through && out.map(|s| *ctx.out_dropped.lock().unwrap().get(&s).unwrap_or(&false)).unwrap_or(false));
+            let out_dropped = through && out.map(|s| *ctx.out_dropped.lock().unwrap().get(&s).unwrap_or(&false)).unwrap_or(false);
+            let out_ended = through && out.map(|s| *ctx.out_ended.lock().unwrap().get(&s).unwrap_or(&false)).unwrap_or(false);
+            let must_be_shut = (ctx.chan_closed[c].load(Ordering::SeqCst) && (!through || out_ended)) || out_dropped;
             if must_be_shut && !shut(c) { settled = false; }
             // the reference held by a dropped output stream is released by a job on the crate's disposal queue
             let out_gone = through && out.map(|s| *ctx.out_dropped.lock().unwrap().get(&s).unwrap_or(&false)).unwrap_or(false);
@@ -969,7 +1009,10 @@ fn check_pipes(ctx: &Arc<Ctx>) {
                 ctx.fail(&["C16"], format!("output stream {} was dropped but the pipe did not shut down (input stream drops {}, closure drops {})", s, ctx.stream_drops[c].load(Ordering::SeqCst), ctx.fn_drops[c].load(Ordering::SeqCst)));
             }
         }
-        if ctx.chan_closed[c].load(Ordering::SeqCst) && alive && !shut(c) {
+        // (a `pipe` whose consumer has stopped reading may be parked on back-pressure with input still unread: it is
+        // released when the consumer reads to the end or drops the stream, not before)
+        let consumer_done = !through || out.map(|s| *ctx.out_ended.lock().unwrap().get(&s).unwrap_or(&false) || *ctx.out_dropped.lock().unwrap().get(&s).unwrap_or(&false)).unwrap_or(true);
+        if ctx.chan_closed[c].load(Ordering::SeqCst) && alive && consumer_done && !shut(c) {
             ctx.fail(&["C11", "C12"], format!("input {} ended but the pipe did not release its stream and closure (stream drops {}, closure drops {})", c, ctx.stream_drops[c].load(Ordering::SeqCst), ctx.fn_drops[c].load(Ordering::SeqCst)));
         }
         // weak reference only: a finished or shut-down pipe holds no strong reference to its target
